@@ -47,6 +47,11 @@ THEOREMS = [
     "JanetModel.Props.C08.writer_wakeup_forwarded",
     "JanetModel.Props.C08.writer_wakeup_accepted",
     "JanetModel.Props.C08.writer_wakeup_counterexample",
+    "JanetModel.Props.C08.supervisor_push_never_parks",
+    "JanetModel.Props.C08.supervisor_events_exactly_once_in_order",
+    "JanetModel.Props.C08.thread_args_roundtrip",
+    "JanetModel.Props.C08.thread_handover_exactly_once",
+    "JanetModel.Props.C08.thread_args_counterexample",
     "JanetModel.Props.C08.thread_returns_after_body",
     "JanetModel.Props.C08.thread_returns_after_body_counterexample",
     "JanetModel.Props.C08.refcount_ge_reachers",
@@ -60,6 +65,9 @@ CURRENT = [
     "JanetModel.Thread.Current.runqueue_shape",
     "JanetModel.Thread.Current.per_sender_order_current",
     "JanetModel.Thread.Current.exactly_once_resumed_current",
+    "JanetModel.Thread.Current.supervisor_shape",
+    "JanetModel.Thread.Current.thread_plans_agree",
+    "JanetModel.Thread.Current.thread_args_roundtrip_current",
     "JanetModel.Thread.Current.thread_returns_after_body_current",
     "JanetModel.Thread.Current.refcount_ge_reachers_current",
 ]
